@@ -259,16 +259,38 @@ func runC08(r *Report) {
 					if lvl == 0 {
 						continue
 					}
-					// range-driven accesses (delete/purge loops) and message-derived keys (Delete) are not lookups by identity
-					if _, isParamOrTuple := k.(*ssa.Parameter); !isParamOrTuple {
-						if _, isEx := k.(*ssa.Extract); !isEx {
-							continue
-						}
-						if ex := k.(*ssa.Extract); ex != nil {
-							if _, isNext := ex.Tuple.(*ssa.Next); isNext {
-								continue
+					// accesses that do not look an identity up: range-driven walks (delete/purge loops), keys
+					// taken from invalidation messages, and the identity stored in an entry itself
+					trace := func(v ssa.Value) string {
+						switch x := throughLocal(v).(type) {
+						case *ssa.Parameter:
+							return "param"
+						case *ssa.Extract:
+							if _, isNext := x.Tuple.(*ssa.Next); isNext {
+								return "range"
+							}
+							if c, isc := x.Tuple.(*ssa.Call); isc && CalleeName(c) == "rueidis/internal/cmds.CacheKey" {
+								return "cachekey"
+							}
+						case *ssa.Call:
+							if strings.HasSuffix(CalleeName(x), "RedisMessage).string") {
+								return "message"
+							}
+						case *ssa.UnOp:
+							if _, f, _, isf := FieldRef(x.X); isf && (f == "key" || f == "cmd") {
+								return "stored-identity"
 							}
 						}
+						return ""
+					}
+					tk := trace(k)
+					if tk == "" {
+						nAddr++
+						r.ObSite("R08b", SiteOf(instr), fmt.Sprintf("level-%d-identity-traceable", lvl), false, "the entry is addressed by a value that is neither the (key, cmd) pair given by the caller / CacheKey nor a stored identity: "+Desc(k))
+						continue
+					}
+					if tk != "param" && tk != "cachekey" {
+						continue
 					}
 					if len(keyV) == 0 {
 						continue
@@ -281,6 +303,48 @@ func runC08(r *Report) {
 		}
 	}
 	r.Anchor("R08b", "two-level accesses (>= 12)", nAddr >= 12)
+
+	// R08e batch lookup: the identity used for a position is derived from the command at that position
+	if fn := r.FnAnchor("R08e", "rueidis.(*lru).Flights"); fn != nil {
+		n := 0
+		for _, cs := range CallSites(fn, "rueidis/internal/cmds.CacheKey") {
+			_, X, ok := elemOfDeep(cs.Call().Common().Args[0])
+			if !ok {
+				r.ObSite("R08e", cs, "identity-of-a-batch-element", false, "the identity is not derived from an element of the batch")
+				continue
+			}
+			for _, b := range fn.Blocks {
+				if !cs.Block.Dominates(b) {
+					continue
+				}
+				for _, in := range b.Instrs {
+					var idx ssa.Value
+					switch x := in.(type) {
+					case *ssa.Store:
+						if ia, isia := x.Addr.(*ssa.IndexAddr); isia && Desc(ia.X) == "p3" {
+							idx = ia.Index
+						}
+					case *ssa.MapUpdate:
+						if Desc(x.Map) == "p4" {
+							idx = x.Key
+						}
+					}
+					if idx == nil {
+						continue
+					}
+					// only within the same loop iteration: no loop header strictly between
+					n++
+					same := idx == X
+					if !same {
+						// X may be the range index while idx is the loaded range value (missed[t]) or vice versa
+						same = throughLocal(idx) == throughLocal(X)
+					}
+					r.ObSite("R08e", SiteOf(in), "result-slot-matches-identity-position", same, fmt.Sprintf("the result/entry slot filled after looking an identity up is the slot of the command the identity was derived from: identity of %s, slot %s", Desc(X), Desc(idx)))
+				}
+			}
+		}
+		r.Anchor("R08e", "Flights: slots filled under an identity (>= 4)", n >= 4)
+	}
 
 	// R08c callers
 	nCall := 0
